@@ -192,13 +192,15 @@ class World:
             frame = f"{verb} --- {addrs} 2349 007 {z}{hx_temp(v)}{mode}FFFFFF"
             lf = life("2349", verb, False)
             ups = [((f"zone {z}", "setpoint"), v, lf, "2349"), ((f"zone {z}", "mode"), {"00": "follow_schedule", "02": "permanent_override"}[mode], lf, "2349")]
-        elif kind == "000Aa":
+        elif kind == "000Aa" and len(zs) >= 2:
+            # (a one-element ' I' 000A right after an array is, to any receiver, that array's second half:
+            #  the library joins them - so the broadcast form is only generated with two or more elements)
             vals = {x: (r.choice((5.0, 10.0, 21.0)), r.choice((21.0, 30.0, 35.0))) for x in zs[:8]}
             body = "".join(f"{x}10{hx_temp(lo)}{hx_temp(hi)}" for x, (lo, hi) in vals.items())
             frame = f" I --- {CTL} --:------ {CTL} 000A {len(body) // 2:03d} {body}"
             lf = life("000A", " I", len(vals) > 1)
             ups = [((f"zone {x}", "config"), v, lf, "array" if len(vals) > 1 else "single-I") for x, v in vals.items()]
-        elif kind == "000As":
+        elif kind in ("000As", "000Aa"):
             lo, hi = r.choice((5.0, 10.0)), r.choice((25.0, 35.0))
             frame = f"RP --- {CTL} {GWY_ID} --:------ 000A 006 {z}10{hx_temp(lo)}{hx_temp(hi)}"
             ups = [((f"zone {z}", "config"), (lo, hi), life("000A", "RP", False), "single-RP")]
